@@ -111,8 +111,15 @@ changes made before an error is raised are kept, as in the code. -/
 def handlePacket (d : SessionData) (r : Runtime) (p : Recv) : SessionData × Runtime × Except Err Bool :=
   match p with
   | .connAck _ _ _ => (d, r, .error .peerInvalid)
-  | .subAck id _ codes | .unsubAck id _ codes =>
-    let (o, found) := d.outbound.ackPacket id
+  | .subAck id _ codes =>
+    let (o, found) := d.outbound.ackPacket id .subAck
+    if !found then (d, r, .ok false) else
+    let d := { d with outbound := o }
+    match firstFailure codes with
+    | some rc => (d, r, .error (.peerRejected rc))
+    | none => (d, r, .ok false)
+  | .unsubAck id _ codes =>
+    let (o, found) := d.outbound.ackPacket id .unsubAck
     if !found then (d, r, .ok false) else
     let d := { d with outbound := o }
     match firstFailure codes with
@@ -120,13 +127,13 @@ def handlePacket (d : SessionData) (r : Runtime) (p : Recv) : SessionData × Run
     | none => (d, r, .ok false)
   | .pingResp => (d, { r with pingTimeout := none }, .ok false)
   | .pubAck id rs =>
-    let (o, found) := d.outbound.ackPacket id
+    let (o, found) := d.outbound.ackPacket id .pubAck
     if !found then (d, r, .ok false) else
     let d := { d with outbound := o }
     let r := quotaInc r
     if reasonSuccess rs.rc then (d, r, .ok false) else (d, r, .error (.peerRejected rs.rc))
   | .pubRec id rs =>
-    let (o, found) := d.outbound.ackPacket id
+    let (o, found) := d.outbound.ackPacket id .pubRec
     if found then
       let d := { d with outbound := o }
       let r := if !reasonSuccess rs.rc then quotaInc r else r
@@ -147,6 +154,7 @@ def handlePacket (d : SessionData) (r : Runtime) (p : Recv) : SessionData × Run
     let r := quotaInc r
     if reasonSuccess rs.rc then (d, r, .ok false) else (d, r, .error (.peerRejected rs.rc))
   | .pubRel id _ =>
+    if id = 0 then (d, r, .error .peerInvalid) else
     let (ids, rc) :=
       if d.pendingServerIds.contains id then
         -- swap_remove: the last element takes the place of the removed one
@@ -166,6 +174,7 @@ def handlePacket (d : SessionData) (r : Runtime) (p : Recv) : SessionData × Run
       match id with
       | none => (d, r, .error .peerInvalid)
       | some id =>
+        if id = 0 then (d, r, .error .peerInvalid) else
         if qos = 1 then
           let rc := if d.pendingServerIds.contains id then RC_PacketIdInUse else RC_Success
           let a : ControlAction := { typ := MT_PubAck, id := id, rc := rc }
